@@ -242,7 +242,36 @@ def natives(ctx, thorough):
                     "Molecule.promolecule_density_isosurface, Crystal.promolecule_density_isosurfaces, Crystal.stockholder_weight_isosurfaces, Crystal.hirshfeld_surfaces(color='d_e') on acetic_acid.cif "
                     f"(separation {1.0 if not thorough else 0.5}), and util.color.property_to_color on seeded arrays for every default colour map",
                     o.evaluations, o.cases, o.as_list(), rule="distinct user-level calls")
+    atom_kind_isovalue_standin(ctx)
     return outs
+
+
+def atom_kind_isovalue_standin(ctx):
+    """The requested isovalue must reach every kind of Hirshfeld surface (added after a seeded change dropped it for kind='atom'):
+    a lower stockholder weight level encloses strictly more volume."""
+    import contextlib
+    import io
+    from chmpy.crystal import Crystal
+    from chmpy.tests import TEST_FILES
+    fails, evals = [], 0
+    with contextlib.redirect_stdout(io.StringIO()):
+        c = Crystal.load(str(TEST_FILES["acetic_acid.cif"]))
+    for kind in ("atom", "mol"):
+        try:
+            lo = c.stockholder_weight_isosurfaces(kind=kind, isovalue=0.35, separation=0.6, radius=6.0)
+            hi = c.stockholder_weight_isosurfaces(kind=kind, isovalue=0.5, separation=0.6, radius=6.0)
+            evals += len(lo)
+            for k, (a, b) in enumerate(zip(lo, hi)):
+                va, vb = abs(float(a.volume)), abs(float(b.volume))
+                if not (va > vb * 1.02):
+                    fails.append({"input": {"structure": "acetic_acid.cif", "kind": kind, "surface": k, "isovalues": [0.35, 0.5], "separation": 0.6},
+                                  "observed": {"volume_at_0.35": va, "volume_at_0.5": vb},
+                                  "clause": "the surface is built on the requested isovalue: the 0.35 weight surface encloses more volume than the 0.5 one", "key": f"isovalue-{kind}"})
+                    break
+        except Exception as e:  # noqa
+            fails.append({"input": {"structure": "acetic_acid.cif", "kind": kind}, "observed": {"exception": repr(e)[:200]}, "clause": "Hirshfeld surfaces are produced", "key": f"isovalue-{kind}-exc"})
+    ctx.add_bounded("crystal.crystal.Crystal.stockholder_weight_isosurfaces/bounded/isovalue_reaches_every_kind", "acetic acid, kind in {atom, mol}, isovalues 0.35 vs 0.5 at separation 0.6",
+                    evals, evals, fails[:3], rule="surfaces compared")
 
 
 # ======================================================================================================================
